@@ -76,6 +76,12 @@ class expr(object):
 
         rhs_e = pop_expr()
         lhs_e = pop_expr()
+        
+        if rhs_e is self.em and lhs_e is not self.em:
+            # Python called the reflected comparison of the right-hand operand
+            # (it does so when that operand's type is a subclass, eg a list 
+            # subscript on the right of an expression). 'self' was pushed last
+            lhs_e, rhs_e = rhs_e, lhs_e
        
         e = ExprBinModel(lhs_e, op, rhs_e)
         if in_srcinfo_mode():
